@@ -157,6 +157,7 @@ def excuses_scoped(norm, src):
     typed_langs = norm.wv or norm.syncml or norm.lang['id'] in (1801, 2401, 2402)
     stack = []
     embedded_at = None     # depth of an embedded DevInf / DM tree document (elements of another language)
+    n_embedded = n_labels = 0
     for e in src:
         if e[0] == 'S':
             if stack and stack[-1] in norm.binary:
@@ -164,6 +165,7 @@ def excuses_scoped(norm, src):
             stack.append(local(e[1]))
             if norm.syncml and embedded_at is None and stack[-1] in (b'DevInf', b'MgmtTree'):
                 embedded_at = len(stack)
+                n_embedded += 1 if (len(stack) >= 2 and stack[-2] == b'Data') else 1000    # (not below <Data>: never announced)
             for an, av in e[2]:
                 if local(an) in norm.dt_attrs and parse_dt(av) is None:
                     add('[invalid-datetime-attribute]', stack[-1])
@@ -181,11 +183,18 @@ def excuses_scoped(norm, src):
             if stack:
                 stack.pop()
         else:
+            if norm.syncml and stack and stack[-1] == b'Type' and embedded_at is None and \
+                    e[1].strip(WS).lower() in (b'application/vnd.syncml-devinf+xml', b'application/vnd.syncml.dmtnds+xml'):
+                n_labels += 1
             if norm.syncml and stack and stack[-1] == b'Type' and e[1] != e[1].strip(WS) and \
                     e[1].strip(WS).lower() in (b'application/vnd.syncml-devinf+xml', b'application/vnd.syncml.dmtnds+xml'):
                 # with white space preserved the MIME label of an embedded document is not recognised
                 for sc in (b'Type', b'Data', b'Item', b'Meta'):
                     add('[syncml-embedded-type-untrimmed]', sc)
+            if norm.syncml and stack and stack[-1] == b'Data' and b'\r' in e[1]:
+                # vObject payloads are carried in a CDATA section, where a carriage return cannot be escaped, and
+                # lone line feeds are turned into CR LF by the encoder
+                add('[syncml-vobject-carriage-return]', b'Data')
             if len(e) > 2 and e[2]:
                 add('[cdata-in-typed-element]' if typed_langs else '[cdata-adjacent-to-text]', stack[-1] if stack else ANY)
             if stack and (stack[-1] in norm.binary or (norm.lang['id'] == 1801 and stack[-1] == b'ds:KeyValue')):
@@ -193,6 +202,10 @@ def excuses_scoped(norm, src):
                     b64_lenient(e[1])
                 except Exception:
                     add('[invalid-base64-in-binary-element]', stack[-1])
+    if n_embedded > n_labels:
+        # a DevInf / DM tree document is always sent as WBXML, whether or not a <Type> announces it
+        for sc in (b'Data', b'Item', b'Meta', b'Type'):
+            add('[syncml-embedded-without-type-label]', sc)
     return out
 
 
@@ -258,8 +271,6 @@ def compare_at(norm, src, dst, keep_ws):
             for (n1, v1), (n2, v2) in zip(ax, ay):
                 if local(n1) != local(n2) or not norm.attr_equiv(n1, v1, v2):
                     tag = ' [invalid-datetime-attribute]' if (local(n1) in norm.dt_attrs and parse_dt(v1) is None) else ''
-                    if norm.lang['id'] == 1901 and local(n1) == b'VALUE' and re.search(rb'\s', v1):
-                        tag = ' [b64-whitespace]'
                     return f'attribute {n1}={v1} vs {n2}={v2}' + tag, local(x[1])
             stack.append(x[1])
         elif x[0] == 'E':
@@ -274,8 +285,6 @@ def compare_at(norm, src, dst, keep_ws):
                         b64_lenient(x[1])
                     except Exception:
                         tag = ' [invalid-base64-in-binary-element]'
-                if norm.lang['id'] == 1801 and le == b'ds:KeyValue' and re.search(rb'\s', x[1].strip(WS)):
-                    tag = ' [b64-whitespace]'
                 if norm.syncml and le != b'Type' and x[1].strip(WS).lower() in (b'application/vnd.syncml-devinf+xml', b'application/vnd.syncml.dmtnds+xml'):
                     tag = ' [syncml-mime-rewrite-outside-type]'
                 if norm.wv and len(x) > 2 and x[2]:
